@@ -214,6 +214,8 @@ def parts_family():
         ("two_parts", ["p", "q"], [("s", star(R("p"))), ("p", cat(T("A"), R("q"), T("D"))), ("q", ("alt", [("plus", T("B")), T("C")]))]),
         ("unused_part_shared", ["p"], [("s", cat(R("a"), T("D"))), ("a", cat(T("A"), star(T("B")))), ("p", cat(T("X"), R("a"), T("Y")))]),
         ("part_in_opt", ["p"], [("s", cat(T("A"), opt(R("p")), T("D"))), ("p", cat(T("B"), star(T("C"))))]),
+        ("nullable_part", ["p"], [("s", cat(T("A"), R("p"), T("D"))), ("p", star(T("B")))]),
+        ("nullable_part_opt", ["p", "q"], [("s", cat(T("A"), R("p"), T("D"))), ("p", cat(opt(T("B")), R("q"))), ("q", opt(T("C")))]),
         ("nested_parts", ["p", "q"], [("s", cat(R("p"), T("D"))), ("p", cat(T("A"), star(R("q")))), ("q", cat(T("B"), opt(T("C"))))]),
     ]
     for nm, parts, rules in specs:
